@@ -84,7 +84,7 @@ for right in (True, False):
         vcut(right, bounds, [2], "q")
         vcut(right, bounds, [3], "q")
         vcut(right, bounds, [1], "t", nv=2)
-        vcut(right, bounds, [2], "t", nv=2)
+        vcut(right, bounds, [2], "q", nv=2)   # quick since seeded change C14-m7 (a per-call cache of the last hit interval: needs two values)
         vcut(right, bounds, [3], "t", nv=2)
     # the extreme value under open bounds: the pinned tree materialises the bounds as MIN / MAX
     # (one cheap edge count in the quick tier: the native replay of a failing harness needs a full CBMC trace,
